@@ -137,24 +137,32 @@ Qed.
 Lemma init_unsigned O o c now :
   valid_signed O (key o) c = false -> init O o (Some c) now = IOk (fresh_sess now).
 Proof.
-  unfold valid_signed, init, loads. destruct (unb64 O c) as [f|]; [intros ->|intros _];
-    cbn; (destruct (timeout o) as [t|]; [|reflexivity];
+  unfold valid_signed, init, loads. destruct (unb64 O c) as [f|].
+  - destruct (canonical_check && negb (text_eqb (b64 O f) c)); cbn [negb andb]; [intros _|intros ->];
+      cbn; (destruct (timeout o) as [t|]; [|reflexivity];
+          match goal with |- context[if ?b then _ else _] => destruct b end; reflexivity).
+  - intros _. cbn. (destruct (timeout o) as [t|]; [|reflexivity];
           match goal with |- context[if ?b then _ else _] => destruct b end; reflexivity).
 Qed.
 
 Lemma valid_signed_spec O k c : mac_len O ->
-  (valid_signed O k c = true <-> exists p, unb64 O c = Some (mac O k p ++ p)).
+  (valid_signed O k c = true <->
+   exists p, unb64 O c = Some (mac O k p ++ p) /\ (canonical_check = true -> b64 O (mac O k p ++ p) = c)).
 Proof.
   intros Hm. unfold valid_signed. split.
-  - destruct (unb64 O c) as [f|]; [|discriminate]. intros E. apply text_eqb_eq in E.
-    exists (skipn (ds O) f). rewrite E. rewrite firstn_skipn. reflexivity.
-  - intros [p ->]. rewrite skipn_len_app, firstn_len_app by apply Hm. apply text_eqb_refl.
+  - destruct (unb64 O c) as [f|]; [|discriminate]. intros E. apply andb_true_iff in E. destruct E as [E1 E2].
+    apply text_eqb_eq in E2.
+    assert (F : mac O k (skipn (ds O) f) ++ skipn (ds O) f = f) by (rewrite E2; apply firstn_skipn).
+    exists (skipn (ds O) f). rewrite F. split; [reflexivity|].
+    intros C. rewrite C in E1. cbn [andb] in E1. rewrite negb_involutive in E1. apply text_eqb_eq, E1.
+  - intros (p & -> & C). rewrite skipn_len_app, firstn_len_app by apply Hm. rewrite text_eqb_refl, andb_true_r.
+    destruct canonical_check; [|reflexivity]. rewrite (C eq_refl), text_eqb_refl. reflexivity.
 Qed.
 
 Lemma loads_cookie O o s : rt_b64 O -> rt_ser O -> mac_len O ->
   loads O (key o) (cookie_of O o s) = Some (payload s).
 Proof.
-  intros Hb Hs Hm. unfold loads, cookie_of. rewrite Hb.
+  intros Hb Hs Hm. unfold loads, cookie_of. rewrite Hb. rewrite text_eqb_refl. cbn [negb]. rewrite andb_false_r.
   rewrite skipn_len_app, firstn_len_app by apply Hm. rewrite text_eqb_refl. apply Hs.
 Qed.
 
@@ -242,10 +250,14 @@ Lemma run_req_ok O o last r s0 :
 Proof. intros E. unfold run_req. rewrite E. destruct (run_ops o (rops r) s0); reflexivity. Qed.
 
 Lemma chain_refines_spec O o : rt_b64 O -> rt_ser O -> mac_len O ->
-  forall l last sv, inv O o last sv ->
+  forall l last sv, chain_ok O o l -> inv O o last sv ->
   Forall2 ok_at (run_chain O o last l) (spec_chain O o sv true l).
 Proof.
-  intros Hb Hs Hm. induction l as [|r l IH]; intros last sv Iv; [constructor|].
+  intros Hb Hs Hm. induction l as [|r l IH0]; intros last sv Hok Iv; [constructor|].
+  inversion Hok as [|? ? Hr Hl]; subst.
+  assert (IH : forall last sv, inv O o last sv ->
+               Forall2 ok_at (run_chain O o last l) (spec_chain O o sv true l)) by (intros; apply IH0; assumption).
+  clear IH0.
   cbn [run_chain spec_chain negb].
   (* a request that starts from a fresh session *)
   assert (Fresh : init O o (present last (rsrc r)) (rt r) = IOk (fresh_sess (rt r)) ->
@@ -261,7 +273,7 @@ Proof.
     - rewrite R2. exact Iv.
     - destruct R2 as (v1 & -> & ->). reflexivity.
     - rewrite R2. exact Iv. }
-  destruct (rsrc r) as [| |c] eqn:Sr.
+  destruct (rsrc r) as [| |c|c] eqn:Sr.
   - apply Fresh. cbn [present]. apply init_none.
   - (* the cookie last set *)
     cbn [present]. destruct last as [c|], sv as [v|]; cbn [inv] in Iv; try contradiction.
@@ -282,6 +294,8 @@ Proof.
   - destruct (valid_signed O (key o) c) eqn:V.
     + constructor; [exact Logic.I|apply chain_dead].
     + apply Fresh. cbn [present]. apply init_unsigned, V.
+  - (* an altered cookie the signature check refuses *)
+    apply Fresh. cbn [present]. apply init_unsigned, Hr.
 Qed.
 
 (* ------------------------------------------------------------------ named consequences *)
@@ -336,6 +350,7 @@ Lemma tamper_new_empty O o c now :
 Proof.
   destruct (valid_signed O (key o) c) eqn:V; [right|left; apply init_unsigned, V].
   unfold valid_signed in V. destruct (unb64 O c) as [f|]; [|discriminate].
+  apply andb_true_iff in V. destruct V as [_ V].
   apply text_eqb_eq in V. exists (skipn (ds O) f). rewrite V, firstn_skipn. reflexivity.
 Qed.
 
